@@ -130,7 +130,9 @@ class C14(Prop):
                 chain = ["{c%d} = '\\{c%d}'" % (i, i + 1) for i in range(1, depth)] + ["{c%d} = '# Title %d'" % (depth, depth)]
                 k = rng.randrange(len(parts) - 1)
                 parts[k] += '\n\n' + '\n'.join(chain) + '\n\n{c1}'
-                parts[k + 1] = '{c%d}\n\n' % depth + parts[k + 1]
+                # ... at top level, or inside a container (whose reader is a new one)
+                nxt = rng.choice(['{c%d}', '..\n{c%d}\n..', '""\n{c%d}\n\n{c%d}\n""', '..\n{c2}\n..']).replace('%d', str(depth))
+                parts[k + 1] = nxt + '\n\n' + parts[k + 1]
             yield {'parts': parts, 'safeMode': mode, 'htmlReplacement': rng.choice([None, '[R]', '<i>gone</i>'])}
 
     def execute(self, case, ctx, res):
@@ -704,7 +706,9 @@ class C11(Prop):
             for _ in range(rng.randint(1, 4)):
                 name = rng.choice(names)
                 form = rng.random()
-                choices = [plain(rng), 'P1=$1 P2=$2', '$1:dflt$ and $2', '', 'x $$1 y', 'A $3:d3$ B', "it''s"]
+                choices = [plain(rng), 'P1=$1 P2=$2', '$1:dflt$ and $2', '', 'x $$1 y', 'A $3:d3$ B', "it''s",
+                           # values that are line-level elements when they stand at the start of a line
+                           '// note $1', '//', '# Title $1', '- item $1', '.klass', '<<#anc>>', '/* c */', '\\// shown', '<image:pic.png>']
                 if 'm1' in table and '$' not in table['m1'] and '\n' not in table['m1']:
                     choices += ['pre {m1} post'] * 2      # values refer to *earlier* macros only
                 value = rng.choice(choices)
@@ -772,6 +776,13 @@ class C11(Prop):
                     kinds.add('exclusion')
                 w1, w2 = plain(rng, 1, 2), plain(rng, 1, 2)
                 if '\n' in (val or '') and ctxk in ('header', 'list'):
+                    ctxk = 'para-mid'
+                # a list reads ahead over the raw lines: a line-leading invocation right after a list item is not seen as the item
+                # or attached block it expands to (known finding F31, replayed from its witness) - not generated here
+                prev = lines_a[-1] if lines_a else ''
+                prev_listish = prev.startswith('- ') or (prev.startswith('{') and any(
+                    prev.startswith('{%s' % n) and table.get(n, '').startswith('- ') for n in names))
+                if prev_listish and ctxk in ('para-start', 'line-alone'):
                     ctxk = 'para-mid'
                 if 'inclusion' in kinds and inv.startswith('{%s=' % name) or 'exclusion' in kinds and inv.startswith('{%s!' % name):
                     # inclusion / exclusion: one line of a multi-line paragraph is kept or deleted
